@@ -6,6 +6,7 @@
 #include "sides/clip_api.hpp"
 #include "engine/boards.hpp"
 #include "checks/wellformed.hpp"
+#include "checks/cells_family.hpp"
 
 using namespace vf;
 
@@ -197,9 +198,30 @@ int main(int argc, char** argv) {
         run(Paths{w}, Paths()); }
       if (done) rep.bounds_completed.push_back("walks g=" + std::to_string(g) + " n=" + std::to_string(n) + (alt ? " alternating" : " any-steps"));
     }
+  } else if (scope == "cells") {
+    // the C04 "cells" family (a ring of cells round a w x h grid + every subset of the interior cells, as rectangles in many
+    // decompositions: dozens of rectangles meeting in edge and corner contacts), alone and against the interior square
+    int w = (int)a.opti("w", 6), h = (int)a.opti("h", 5); int nin = (w - 2) * (h - 2); bool frames = a.opti("frames", 0) != 0;
+    for (u64 code = 0; code < ((u64)1 << nin); ++code) {
+      if (!rep.mine(code)) continue;
+      if ((code & 63) == 0 && rep.out_of_time()) { done = false; break; }
+      for (int decomp : cells_decomps(frames, code, w - 2)) {
+        Paths Si = cells_shape(w, h, code, decomp);
+        for (int withclip = 0; withclip < 2; ++withclip) {
+          Paths Ci; if (withclip) Ci.push_back(cell_rect(1, 1, w - 1, h - 1));
+          if (withclip && frames && (decomp % 9)) continue;   // frames: the clip variant for every ninth frame only
+          std::vector<i64> xs, ys; for (auto* pp : {&Si, &Ci}) for (auto& p : *pp) for (auto& q : p) { xs.push_back(q.x); ys.push_back(q.y); }
+          std::sort(xs.begin(), xs.end()); xs.erase(std::unique(xs.begin(), xs.end()), xs.end());
+          std::sort(ys.begin(), ys.end()); ys.erase(std::unique(ys.begin(), ys.end()), ys.end());
+          check_input(cx, Si, Ci, xs, ys); rep.add("inputs");
+        }
+      }
+      if (code % 1021 == 1) rep.sample("cells " + std::to_string(w) + "x" + std::to_string(h) + " code " + std::to_string(code) + ": S=" + pstr(cells_shape(w, h, code, 1)));
+    }
+    if (done) rep.bounds_completed.push_back("cells " + std::to_string(w) + "x" + std::to_string(h) + (frames ? " four-bar frames" : " ten decompositions") + ", alone and against the interior square");
   } else { fprintf(stderr, "unknown scope\n"); return 2; }
 out:
-  if (done && scope != "walks") rep.bounds_completed.push_back(scope + " g=" + std::to_string(g) + " spacings " + std::to_string(sp_lo) + ".." + std::to_string(sp_hi));
+  if (done && scope != "walks" && scope != "cells") rep.bounds_completed.push_back(scope + " g=" + std::to_string(g) + " spacings " + std::to_string(sp_lo) + ".." + std::to_string(sp_hi));
   rep.write();
   return 0;
 }
